@@ -894,7 +894,7 @@ pub fn mon_c09(out: &mut Out, l: &str, r: &str) {
             let (tid, u) = (p_u16(tid).unwrap(), p_u8(u).unwrap());
             let pdu = match p_response_result(q).unwrap() {
                 Ok(rsp) => spec::response_bytes(&rsp),
-                Err(e) => Some(vec![e.function.value() | 0x80, e.exception.into()]),
+                Err(e) => Some(vec![crate::wire::fc_num(e.function) | 0x80, crate::wire::ex_num(e.exception)]),
             };
             judge(out, pdu, &|p| spec::mbap(tid, u, p));
         }
@@ -902,7 +902,7 @@ pub fn mon_c09(out: &mut Out, l: &str, r: &str) {
             let u = p_u8(u).unwrap();
             let pdu = match p_response_result(q).unwrap() {
                 Ok(rsp) => spec::response_bytes(&rsp),
-                Err(e) => Some(vec![e.function.value() | 0x80, e.exception.into()]),
+                Err(e) => Some(vec![crate::wire::fc_num(e.function) | 0x80, crate::wire::ex_num(e.exception)]),
             };
             judge(out, pdu, &|p| spec::rtu_frame(u, p));
         }
